@@ -156,12 +156,12 @@ func TestVerifReplay(t *testing.T) {
 func replayFunction(P *Program, ex *Exec, o *Obligation, outDir string) (map[string]any, bool) {
 	fn := ex.root
 	out := map[string]any{}
+	if tmpl := templateFor(o); tmpl != nil {
+		return runTemplate(P, ex, o, outDir, tmpl)
+	}
 	if len(o.Model) == 0 {
 		out["replay"] = "the solver returned no model values"
 		return out, false
-	}
-	if tmpl := templateFor(o); tmpl != nil {
-		return runTemplate(P, ex, o, outDir, tmpl)
 	}
 	pkg := fn.Pkg.Pkg
 	var args []replayArg
